@@ -68,6 +68,9 @@ const (
 	// a RawSuite obtained from a constructor (NewRawSuite of an advertised name / NewSuite) whose exported
 	// configuration is then overwritten by the caller with the target configuration: still a hand-built configuration
 	viaEdited = "constructed-then-edited"
+	// a caller-owned configuration object handed over by pointer (*SuiteConfig / *RawSuite satisfy Suite as well),
+	// used once with another configuration and then reconfigured in place to the target configuration
+	viaPointer = "pointer-reconfigured-in-place"
 )
 
 func makeSuite(via string, s ref.Suite) (suite otp.Suite, err error, pan any) {
@@ -104,6 +107,27 @@ func makeSuite(via string, s ref.Suite) (suite otp.Suite, err error, pan any) {
 		}
 		rs.SuiteConfig = toCfg(s)
 		suite, err = rs, nil
+	case viaPointer:
+		prev := otp.SuiteConfig{Raw: "OCRA-1:previous", Hash: otp.SHA512, Digits: 9, IncludeCounter: true}
+		if s.C && !s.Q && !s.P && !s.S && !s.T {
+			prev = otp.SuiteConfig{Raw: "OCRA-1:previous", Hash: otp.SHA1, Digits: 6, IncludeChallenge: true, Challenge: otp.ChallengeFormat(ref.QN08)}
+		}
+		prevIn := otp.OCRAInput{Counter: []byte{0, 0, 0, 0, 0, 0, 0, 1}, Challenge: []byte("12345678")}
+		if (len(s.Raw)+s.Digits)%2 == 0 {
+			p := new(otp.SuiteConfig)
+			*p = prev
+			var asSuite otp.Suite = p
+			otp.GenerateOCRA("GEZDGNBVGY3TQOJQ", asSuite, prevIn)
+			otp.ValidateOCRA("GEZDGNBVGY3TQOJQ", "000000", asSuite, prevIn)
+			*p = toCfg(s)
+			suite = asSuite
+		} else {
+			p := &otp.RawSuite{SuiteConfig: prev}
+			var asSuite otp.Suite = p
+			otp.GenerateOCRA("GEZDGNBVGY3TQOJQ", asSuite, prevIn)
+			p.SuiteConfig = toCfg(s)
+			suite = asSuite
+		}
 	default:
 		suite = toCfg(s)
 	}
@@ -388,7 +412,7 @@ func c05Cases(c *Ctx, emit func(ocraCase)) {
 			raws = append(raws, strings.Repeat("OCRA-1:long-suite-text/", n/23+1)[:n])
 		}
 	}
-	vias := []string{viaNewSuite, viaBare, viaRawValue, viaEdited}
+	vias := []string{viaNewSuite, viaBare, viaRawValue, viaEdited, viaPointer}
 	for i, s := range handBuiltSuites(rng, raws) {
 		reps := c.N(6, 60)
 		if len(s.Raw) > 400 {
@@ -399,7 +423,7 @@ func c05Cases(c *Ctx, emit func(ocraCase)) {
 		}
 		for v := 0; v < reps; v++ {
 			kh, sec := secretFor()
-			emitWithVariants(ocraCase{KeyHex: kh, Secret: sec, Via: vias[(i+v)%4], Suite: s, Input: inputToJ(admissibleInput(rng, s, i+v*7))})
+			emitWithVariants(ocraCase{KeyHex: kh, Secret: sec, Via: vias[(i+v)%len(vias)], Suite: s, Input: inputToJ(admissibleInput(rng, s, i+v*7))})
 		}
 	}
 }
@@ -483,6 +507,24 @@ func checkOneOCRAMessage(c *Ctx, k ocraCase) bool {
 	return true
 }
 
+// c05EarlyHistories: the history-dependent routes (a suite object reconfigured in place through a pointer, a
+// constructed-then-edited value) once more at the very start of the process, on one goroutine, before anything else
+// has been derived - state that is only kept while some bounded table still has room is exercised here.
+func c05EarlyHistories(c *Ctx) {
+	rng := c.RNG.Fork(55)
+	suites := handBuiltSuites(rng, []string{"OCRA-1:early"})
+	for i := 0; i < c.N(300, 3000) && len(suites) > 0; i++ {
+		s := suites[rng.Intn(len(suites))]
+		via := viaPointer
+		if i%4 == 3 {
+			via = viaEdited
+		}
+		key := rng.Bytes(20)
+		judgeOCRA(c, ocraCase{KeyHex: hexs(key), Secret: ref.Base32EncodeNoPad(key), Via: via, Suite: s, Input: inputToJ(admissibleInput(rng, s, i)), Note: "early history"})
+		c.R.Count("early_history_calls", 1)
+	}
+}
+
 // c05NeighbourHistory: one goroutine, one suite and input, keys that differ minimally (see gen.NeighbourKeys),
 // alternating base / neighbour / base.
 func c05NeighbourHistory(c *Ctx) {
@@ -516,6 +558,7 @@ func init() {
 		Rule: "suites = every advertised name, grammar-generated suite strings the parser accepts, and hand-built configurations (3 hashes x digits 4..10 x 32 field subsets x formats x password hashes x suite texts '', a name, 300 bytes) through NewSuite / bare SuiteConfig / RawSuite value; inputs admissible with boundary lengths (challenge min..128, session nil/0..128); each GenerateOCRA result compared with an independent RFC 6287 model, then repeated 3x with arbitrary content in unselected fields; " +
 			"distinct_nontrivial counts distinct (key, route, suite, input) tuples whose exact code was compared",
 		Run: func(c *Ctx) {
+			c05EarlyHistories(c)
 			b := newBatcher(c, judgeOCRA, 7)
 			c05Cases(c, b.add)
 			b.flush()
